@@ -109,7 +109,7 @@ func loadProgram(dir string, patterns []string, env []string) (*Loaded, error) {
 		}
 	}
 	for _, p := range prog.AllPackages() {
-		if isVxPkg(p) {
+		if isVxPkg(p) || strings.HasPrefix(p.Pkg.Path(), modPath+"/") || p.Pkg.Path() == modPath {
 			p.Build()
 		}
 	}
